@@ -209,6 +209,15 @@ func (c *c12) l2Matrix(o *OracleEnv, admin string, execs []string, pastExecs, pa
 		return
 	}
 	nextSeq := o.NextL1Seq()
+	if nextSeq == 1 {
+		// make sure an already processed sequence exists, so that replays can be probed too
+		for _, ex := range execs {
+			if r := o.L2.Deliver(o.DepositMsg(sim.Account{Addr: sdk.MustAccAddressFromBech32(ex)}, 1, "l1from", o.Users[1].String(), "uinit", math.NewInt(5), nil)); r.Class == sim.OK {
+				break
+			}
+		}
+		nextSeq = o.NextL1Seq()
+	}
 	commit := o.BuildCommit(uint64(o.HostHeight)+1, 1, o.HonestSpecs(pricesAt(1_000_000, ts)))
 	newVal := NewValKey(50 + c.rng.Intn(1000))
 	params, _ := l2.K.GetParams(l2.Ctx)
@@ -227,6 +236,7 @@ func (c *c12) l2Matrix(o *OracleEnv, admin string, execs []string, pastExecs, pa
 		}
 		probes := []pm{
 			{"MsgFinalizeTokenDeposit", o.DepositMsg(sim.Account{Addr: sdk.MustAccAddressFromBech32(x)}, nextSeq, "l1from", o.Users[1].String(), "uinit", math.NewInt(5), nil), isExec},
+			{"MsgFinalizeTokenDeposit(stale)", o.DepositMsg(sim.Account{Addr: sdk.MustAccAddressFromBech32(x)}, 1, "l1from", o.Users[1].String(), "uinit", math.NewInt(5), nil), isExec},
 			{"MsgSetBridgeInfo", opchildtypes.NewMsgSetBridgeInfo(x, o.BridgeInfo(o.ClientID, true)), isExec},
 			{"MsgUpdateOracle", opchildtypes.NewMsgUpdateOracle(x, uint64(o.HostHeight)+1, commit), isExec},
 			{"MsgAddValidator", addMsg, isAuth},
@@ -440,7 +450,7 @@ func checkC12(run *mon.Run, rng *mon.Rand, thorough bool) {
 		run.Declare(c, 4)
 	}
 	for _, m := range []string{"L1.MsgProposeOutput", "L1.MsgDeleteOutput", "L1.MsgUpdateProposer", "L1.MsgUpdateChallenger", "L1.MsgUpdateBatchInfo", "L1.MsgUpdateMetadata", "L1.MsgUpdateOracleConfig", "L1.MsgUpdateParams",
-		"L2.MsgFinalizeTokenDeposit", "L2.MsgSetBridgeInfo", "L2.MsgUpdateOracle", "L2.MsgAddValidator", "L2.MsgRemoveValidator", "L2.MsgUpdateParams", "L2.MsgSpendFeePool", "L2.MsgExecuteMessages"} {
+		"L2.MsgFinalizeTokenDeposit", "L2.MsgFinalizeTokenDeposit(stale)", "L2.MsgSetBridgeInfo", "L2.MsgUpdateOracle", "L2.MsgAddValidator", "L2.MsgRemoveValidator", "L2.MsgUpdateParams", "L2.MsgSpendFeePool", "L2.MsgExecuteMessages"} {
 		run.Declare("C12.cell_allowed."+m, 5) // every message type must be seen succeeding for a legitimate holder
 	}
 	c := &c12{run: run, rng: rng}
